@@ -10,15 +10,25 @@ def run(ctx):
     cfg = "Tokens_gen_%s.cfg" % ctx.tier
     r = ctx.tlc("Tokens_gen", cfg)
     ctx.exhaustive = True
-    ctx.notes["rule"] = ("every Validate/GetUser outcome of every behaviour of Tokens.tla within the config bounds "
-                         "(issue parameters x alterations x validation instants x validation parameters); "
-                         "distinct = distinct (call, alteration sequence, live/expired, same key, same user, verdict) classes")
+    ctx.notes["rule"] = ("every Validate / GetUser / ValidateRead (validate for the user read from the token) outcome of every "
+                         "behaviour of Tokens.tla within the config bounds "
+                         "(issue parameters x alterations x validation instants x validation parameters), and of the user-ID "
+                         "alphabet family (frame x character class x position of the issued user ID; read back, validated as read, "
+                         "validated for every neighbouring user ID); "
+                         "distinct = distinct (call, alteration sequence, live/expired, same key, same user, verdict"
+                         "[, character class @ position > class validated for]) classes")
     ctx.notes["constants"] = cfg
     ctx.replay_and_compare("c20", r.records)
+    r.records = None   # millions of records in the thorough tier: release them before the next family
     # secrets of particular lengths sharing a prefix (64-byte keys differing in their second half, their 32-byte
     # prefix, ...): different secrets like any others
     rk = ctx.tlc("Tokens_gen", "Tokens_gen_keys.cfg")
     ctx.replay_and_compare("c20", rk.records)
+    # the alphabet of the user ID: every character class (URL-escape characters, separators, controls, Unicode, lengths)
+    # at every position of a full Matrix ID and of a bare localpart - issued by the real GenerateLoginToken, read back,
+    # validated for the user read, and validated for every neighbour (same frame, another class at that position)
+    rc = ctx.tlc("Tokens_class_gen", "Tokens_gen_class_%s.cfg" % ctx.tier)
+    ctx.replay_and_compare("c20", rc.records)
     # Issue, Validate, time passes, Validate: one token string presented before and after its expiry in real time
     # (the only behaviour of Tokens.tla that shifting the expiry caveat cannot realise); lifetimes of 2 and 3 s
     seq = [{"secret": s, "user": u, "dur": d} for s in ("k1", "k1 ") for u in ("@alice:example.org", "user1") for d in (2, 3)]
